@@ -2,7 +2,7 @@
 from vf import rt, scen, world as W
 from vf.commands import C
 from vf.runner import CH
-from harness import common as K
+from harness import common as K, kpair
 
 PARTITION = None
 MOD = 'harness.c13'
@@ -290,7 +290,7 @@ def obligations(tier):
     t = 300 if tier == 'quick' else 600
     gparts = _prefix_parts(1, 3) if tier == 'quick' else _prefix_parts(2, 4)
     sparts = [('short', 3, 2)] if tier == 'quick' else _prefix_parts(1, 3)
-    return [
+    return kpair.obligations(tier) + [
         CH('K_grammar_all_replies', MOD, 'k_grammar', timeout=t, partitions=gparts, twin=(tier == 'quick'),
            engine='K', regime='traced',
            encodes=['parse_indexes', 'parse_int_index', 'Range.__iter__', 'Sequences.all_indexes'],
